@@ -193,6 +193,29 @@ func (v *Verifier) effectObligations(cu *FuncUnit, con *Contract, name string) [
 				}
 			}
 			add("effect:const_suffix:"+f[0], cl.Text, ok, cu.Decl.Pos(), cl.Props, "constant "+f[0]+" does not end with "+want)
+		case strings.HasPrefix(txt, "sequence "):
+			// effect sequence f1, f2, ...: each function is called, and the first calls occur in this source order
+			names := splitCommaTop(txt[9:])
+			last := token.NoPos
+			for k, nm := range names {
+				nm = strings.TrimSpace(nm)
+				var first *callSite
+				for i := range calls {
+					if calls[i].name == nm {
+						first = &calls[i]
+						break
+					}
+				}
+				ok := first != nil && first.pos > last
+				pos := cu.Decl.Pos()
+				why := "no call of " + nm
+				if first != nil {
+					pos = first.pos
+					why = "call of " + nm + " does not come after the previous stage"
+					last = first.pos
+				}
+				add(fmt.Sprintf("effect:sequence#%d:%s", k, sanitize(nm)), cl.Text, ok, pos, cl.Props, why)
+			}
 		case strings.HasPrefix(txt, "template_fields "):
 			// effect template_fields <const> <Type>: every action of the constant template reads FIELDS of Type only - no method of
 			// that name exists (text/template would call it while the output file is already open), no call / pipeline
